@@ -770,6 +770,9 @@ def fam_conc(rng, tier="quick"):
     pre = [reg(1), add(1, 1, valid(1))] + [ff(CFG_B["D"] + CFG_B["G"] - 1, "each"), mine([], poll=False)]
     out.append(conc("conc-add-block-purge", CFG_B, pre, [cadd(1, 2), CPOLL], pb, mx, rnd))
     out.append(conc("conc-get-block-purge", CFG_B, pre, [{"op": "get", "u": 1, "l": D(1)}, CPOLL], pb, mx, rnd))
+    # the block at the height of the user's expiry (the subscription ends, the data stays) while the user submits / reads
+    pre = [reg(1), add(1, 1, valid(1))] + [ff(CFG_B["D"] - 1, "each"), mine([], poll=False)]
+    out.append(conc("conc-add-block-expiry", CFG_B, pre, [cadd(1, 2), CPOLL], pb, mx, rnd))
     # a block that completes a tracker (refund) while the same user is charged
     pre = [reg(1), add(1, 1, valid(1, 3)), mine([D(1)]), mine([P(1, 3)]), ff(99, "end"), mine([], poll=False)]
     out.append(conc("conc-add-block-complete", CFG_L, pre, [cadd(1, 2, valid(2, 3)), CPOLL], pb, mx, rnd))
